@@ -104,7 +104,7 @@ def main(tier):
     chk.cov['explanation'] = ('Schedules are NOT enumerated (no encoding of pthreads / the TLS runtime; CBMC cannot take this pointer-rich code in its concurrency mode). The claim is a non-interference '
                               'argument: if no operation class writes memory that another thread may access, every interleaving is race free and yields the sequential results. The write sets are measured by executing the real code '
                               '(symbolic execution of the LLVM IR: every value symbolic for the arithmetic classes and the queries, concrete doubles where the matrix exponential is involved) with an access monitor under logical threads; the static scan covers code these runs do not reach.')
-    chk.cov['bounds'] = {'logical threads': 3, 'vector algebra': 'd in %s, one random input per dimension, the same program under thread 1 and thread 2' % ('2,3,5' if tier == 'quick' else '2..6'),
+    chk.cov['bounds'] = {'logical threads': 4, 'vector algebra': 'd in %s, one random input per dimension, the same program under thread 1 and thread 2' % ('2,3,5' if tier == 'quick' else '2..6'),
                          'shared solver': 'one configuration (d=3, nx=4), built by thread 1, four const queries from threads 2 and 3', 'hand-over': 'd = 2, 3, 6', 'static scan': 'all globals of the four linked library translation units',
                          'schedules': 'NOT enumerated: the argument is that no operation writes memory another thread can reach'}
     chk.cov['domains'] = ['R (exact reals, all values symbolic; branch feasibility by z3) with an access monitor on every store, for the arithmetic classes and the shared-solver queries', 'concrete doubles (IR interpreter) with the same monitor for the runs that include the matrix exponential, solver construction, hand-over and thread exit']
@@ -220,6 +220,21 @@ def main(tier):
                 nviol += 1
         if qres[0][2] != qres[1][2]:
             chk.report('determinism:query', 'the same const query on the shared solver gives different bits from two threads', {})
+        # a thread (4) whose FIRST and only library call is a query with an operator made by thread 1: the order in which its thread-local
+        # objects come to life differs from every other scenario (checked again at thread exit below)
+        OP_ADDR = t.slots + 1024
+        t.call(1, 'h_make_projector', [OP_ADDR, d])
+        t.violations.clear()
+        t.call(4, 'h_query_shared_op', [S_ADDR, OP_ADDR, 0.6, t.io.base])
+        o = t.st.find(t.io.base)
+        v4 = o.cells[0][1]
+        t.call(2, 'h_query_shared_op', [S_ADDR, OP_ADDR, 0.6, t.io.base])
+        if t.st.find(t.io.base).cells[0][1] != v4:
+            chk.report('determinism:query-shared-op', 'the same query gives different bits from a fresh thread and from a thread that used the library before', {})
+        for v in list(t.violations):
+            chk.report('write-set:query:%s' % v.split('(')[0].strip()[-40:], 'a const query on the shared solver performs a %s (fresh thread 4)' % v, {'x': 0.6})
+            nviol += 1
+        t.call(1, 'h_drop', [OP_ADDR])
         t.shared_ranges = []
         chk.obligation('const queries (GetExpectationValue, GetExpectationValueD plain/averaging, GetIntermediateState, Get_i) from threads 2 and 3 on a solver built by thread 1: no store into the solver or any block it owns; equal bits', 'holds' if nviol == 0 else 'fails')
         t.call(1, 'h_solver_drop', [S_ADDR])
@@ -234,7 +249,7 @@ def main(tier):
             t.call(dr, 'h_drop', [t.slots + 64 * d])
         chk.obligation('hand-over: vectors created under thread 1 are destroyed under thread 2, vectors emptied by assignment are released on the same or another thread, without an invalid access or foreign-TLS store', 'holds')
         # ---- (c) thread exit
-        for thread in (3, 2, 1):
+        for thread in (4, 3, 2, 1):
             n_d = t.thread_exit(thread)
             results['thread %d exit' % thread] = '%d registered thread-local destructors run' % n_d
         left = t.live_blocks()
